@@ -158,6 +158,7 @@ SBuf::rawAppendFinish(const char *start, size_type actualSize)
 char *
 SBuf::rawSpace(size_type minSpace)
 {
+    Must(minSpace <= maxSize);
     Must(length() <= maxSize - minSpace);
     debugs(24, 7, "reserving " << minSpace << " for " << id);
     ++stats.rawAccess;
